@@ -1,6 +1,6 @@
 (* C04 - Btree columns are an ordered map with correct bidirectional iteration. *)
 From Coq Require Import NArith List Bool.
-From PDB Require Import Model.BTreeIter Model.BTreeCheck Proofs.BTreeIterProofs Proofs.BTreeCheckProofs.
+From PDB Require Import Model.BTreeIter Model.BTreeCheck Proofs.BTreeIterProofs Proofs.BTreeCheckProofs Proofs.BTreeMergeProofs.
 Import ListNotations.
 Open Scope N_scope.
 
@@ -25,6 +25,36 @@ Theorem C04_step_is_spec : forall fuel b it d, sorted b -> positive_keys b -> In
   r = fst (spec_step b (last it) d) /\ last it' = snd (spec_step b (last it) d) /\ Inv it'.
 Proof. exact step_is_spec. Qed.
 
+(* The merge with the commit overlay (commits not yet in the tree): insertions override tree entries,
+   removals hide them, any number of removals in a row, both directions, direction changes, a pending
+   tree item buffered across calls. [mlook b o j] is the CURRENT value of key j: the overlay's word if
+   it has one, otherwise the tree's. One step, from any state the (cursor-answer) invariant allows,
+   returns THE nearest key beyond the position whose current value exists, with that value
+   ([nextP]: the key is beyond the position, it has that value, no key in between has a value; or
+   nothing beyond the position has a value), and keeps the invariant. *)
+Theorem C04_merged_step_is_next :
+  forall b o it d fuel, sorted b -> positive_keys b -> ssorted o -> InvS it -> (length o < fuel)%nat ->
+  let '(r, it') := iter_step fuel b o it d in
+  nextP d (mlook b o) (last it) r /\ InvS it' /\
+  last it' = (if allowedb (last it) d then resl r d else last it).
+Proof. exact merged_step_is_next. Qed.
+
+(* ... hence for every sequence of seek / seek_to_last / next / prev calls, tree content AND overlay
+   possibly different at every call, every returned item is the prescribed one ... *)
+Theorem C04_merged_iteration_is_spec :
+  forall (calls : list (kvs * ovs * icall)) (b0 : kvs),
+  Forall (fun boc => sorted (fst (fst boc)) /\ positive_keys (fst (fst boc)) /\ ssorted (snd (fst boc))) calls ->
+  sorted b0 -> positive_keys b0 ->
+  run_ok LStart calls (impl_run2 calls (iter_new b0)).
+Proof.
+  intros calls b0 H Hs Hp. apply (merged_iteration_is_spec calls (iter_new b0) H). apply invS_of_Inv. apply Inv_new; assumption.
+Qed.
+
+(* ... and the prescription leaves no freedom: any two result sequences that meet it are equal. *)
+Theorem C04_prescription_is_unambiguous :
+  forall calls p rs1 rs2, run_ok p calls rs1 -> run_ok p calls rs2 -> rs1 = rs2.
+Proof. exact run_ok_unique. Qed.
+
 (* The on-disk tree: a dump of the raw files that the checker accepts has its keys in strictly
    increasing in-order sequence, inside the bounds, and every leaf exactly [depth] levels below the
    root (the depth recorded in the tree header). The harness produces the dump with its own parser
@@ -36,7 +66,7 @@ Theorem C04_checker_sound_depth : forall d t lo hi base, wf_b d lo hi t = true -
   Forall (fun x => x = (base + d)%nat) (leaf_depths t base).
 Proof. exact depth_uniform. Qed.
 
-(* Non-vacuity, including a merge with the commit overlay (the part tied by correspondence):
+(* Non-vacuity, including a merge with the commit overlay:
    tree {2,4,6}, overlay {3 := 33, 4 removed}: forward from seek 3: 3, 6, end; then backward: 6, 3, 2. *)
 Definition ex_b : kvs := [(2, 20); (4, 40); (6, 60)].
 Definition ex_o : ovs := [(3, Some 33); (4, None)].
@@ -68,3 +98,6 @@ Print Assumptions C04_tree_iteration_is_spec.
 Print Assumptions C04_step_is_spec.
 Print Assumptions C04_checker_sound_order.
 Print Assumptions C04_checker_sound_depth.
+Print Assumptions C04_merged_step_is_next.
+Print Assumptions C04_merged_iteration_is_spec.
+Print Assumptions C04_prescription_is_unambiguous.
